@@ -9,6 +9,8 @@ CONSTANTS
   BlockFirst = TRUE
   ApplyAtStart = TRUE
   Mix = TRUE
+  WriteFails = TRUE
+  EvictEarly = FALSE
   Rec = TRUE
 INVARIANTS AppliedInOrder BlocksPresent StateMatches Dump
 CHECK_DEADLOCK FALSE
